@@ -29,10 +29,11 @@ type depLog struct {
 	calls   []M
 	faultAt int
 	kind    string
+	persist bool
 }
 
 func (d *depLog) next(dep string) bool {
-	fault := d.faultAt == len(d.calls)+1
+	fault := d.faultAt == len(d.calls)+1 || (d.persist && d.faultAt > 0 && len(d.calls)+1 > d.faultAt)
 	f := "none"
 	if fault {
 		f = d.kind
@@ -116,7 +117,7 @@ func runFaults(sc M) {
 	id := sc["sc"]
 	api := str(sc, "api")
 	k := num(sc, "k")
-	dl := &depLog{faultAt: k, kind: str(sc, "kind")}
+	dl := &depLog{faultAt: k, kind: str(sc, "kind"), persist: sc["persist"] == true}
 	if dl.kind == "" {
 		dl.kind = "error"
 	}
@@ -151,6 +152,7 @@ func runFaults(sc M) {
 		if k > len(dl.calls) {
 			rfs.faultAt = k - len(dl.calls)
 			rfs.kind = dl.kind
+			rfs.persist = dl.persist
 		}
 	}
 	v := storeVar(str(sc, "var"))
@@ -185,7 +187,9 @@ func runFaults(sc M) {
 			e := &efivarfs.EFIFS{FSWrapper: fswrapper.NewMemoryWrapper()}
 			e.SetFS(rfs)
 			if k > 1 {
-				rfs.faultAt, rfs.kind = k-1, dl.kind // position 1 is the signer
+				rfs.faultAt, rfs.kind, rfs.persist = k-1, dl.kind, dl.persist // position 1 is the signer
+			} else if k == 1 && dl.persist {
+				rfs.faultAt, rfs.persist = 1, true
 			}
 			err := efivarfs.Open(e).WriteSignedUpdate(v, val, signer, cert)
 			syncFs()
